@@ -156,8 +156,7 @@ def facade_extra(tier, rng, build_cache, known):
     po = [o for c, o, v in results if c.get("std_probe")]
     std_overlap = None
     if po and po[0] and isinstance(po[0][-1], dict) and "sleepers" in po[0][-1]:
-        d = po[0][-1]
-        std_overlap = (int(d["t_end"]) - int(d["t_begin"])) // 10**6 < 600
+        std_overlap = facadecases.sleeps_overlap(po[0][-1])
     info = {"facade_cases": len(results) - 1, "facade_case_kinds": kinds, "facade_tags": tags,
             "facade_calls_judged": sum(len(t.get("joins", [])) for c, o, v in results for t in c.get("tasks", [])),
             "facade_build_s": round(bsec, 2), "facade_wall_s": round(time.time() - t0, 2), "facade_violations": len(viol),
